@@ -21,7 +21,7 @@ namespace Orix
 inductive NDErr where
   | index      -- IndexError
   | value      -- ValueError / TypeError (numpy refuses shapes, axes; operation not defined)
-  | dimension  -- orix DimensionError
+  | dimension  -- orix DimensionError (not produced by any modelled operation at present)
   | internal   -- a gather reached outside its source (never for well-formed arrays, proved)
   deriving Repr, DecidableEq
 
@@ -330,14 +330,9 @@ def transpose (axes : Option (List Int)) (O : Obj ε) : Except NDErr (Obj ε) :=
   let a ← split O.cls (fun A => NDArray.transpose 1 axes A) (fun A => NDArray.transpose 0 axes A) O.arr
   .ok { O with arr := a }
 
-/-- `Object3d.squeeze`: `obj = self.__class__(self)`.  For `Miller` that constructor call is
-`Miller(xyz=<Miller object>)`, which raises `DimensionError` for every input. -/
-def squeeze (O : Obj ε) : Except NDErr (Obj ε) :=
-  if O.cls = .miller then .error .dimension
-  else .ok { O with arr := NDArray.squeeze O.arr }
-
-/-- what the property asks of `squeeze` for every class -/
-def squeezeSpec (O : Obj ε) : Except NDErr (Obj ε) := .ok { O with arr := NDArray.squeeze O.arr }
+/-- `Object3d.squeeze` (`np.atleast_2d(_data.squeeze())` on the widened data); `Misorientation.squeeze` and
+`Miller.squeeze` re-attach symmetry / phase and coordinate format -/
+def squeeze (O : Obj ε) : Except NDErr (Obj ε) := .ok { O with arr := NDArray.squeeze O.arr }
 
 /-- `cls.stack(sequence)`: the new object comes from a bare constructor call (default metadata) -/
 def stack (pos : Nat) (others : List (NDArray (ε × Bool))) (O : Obj ε) : Except NDErr (Obj ε) := do
@@ -361,18 +356,8 @@ def inv (E : ElemOps ε) (O : Obj ε) : Except NDErr (Obj ε) :=
   else .error .value
 
 /-- unary minus: rotations keep their data and toggle the improper flag; quaternions and vectors negate
-their data.  `Vector3d.__neg__` is `self.__class__(-self.data)`, so a `Miller` comes back with default
-metadata. -/
+their data (`Miller.__neg__` re-attaches phase and coordinate format) -/
 def neg (E : ElemOps ε) (O : Obj ε) : Except NDErr (Obj ε) :=
-  if O.cls.isRot then
-    .ok { O with arr := O.arr.map (fun e => (e.1, !e.2)), md := unitMeta O }
-  else
-    .ok { O with
-      arr := O.arr.map (fun e => (E.neg e.1, e.2)),
-      md := if O.cls = .miller then Meta.default else O.md }
-
-/-- what the property asks of unary minus -/
-def negSpec (E : ElemOps ε) (O : Obj ε) : Except NDErr (Obj ε) :=
   if O.cls.isRot then
     .ok { O with arr := O.arr.map (fun e => (e.1, !e.2)), md := unitMeta O }
   else
@@ -389,23 +374,11 @@ def step (E : ElemOps ε) (O : Obj ε) : Op ε → Except NDErr (Obj ε)
   | .inv => O.inv E
   | .neg => O.neg E
 
-/-- the corrected operations -/
-def stepSpec (E : ElemOps ε) (O : Obj ε) : Op ε → Except NDErr (Obj ε)
-  | .squeeze => O.squeezeSpec
-  | .neg => O.negSpec E
-  | op => O.step E op
-
 def run (E : ElemOps ε) : List (Op ε) → Obj ε → Except NDErr (Obj ε)
   | [], O => .ok O
   | op :: r, O => do
     let O' ← O.step E op
     run E r O'
-
-def runSpec (E : ElemOps ε) : List (Op ε) → Obj ε → Except NDErr (Obj ε)
-  | [], O => .ok O
-  | op :: r, O => do
-    let O' ← O.stepSpec E op
-    runSpec E r O'
 
 end Obj
 
